@@ -22,6 +22,13 @@
 #include <fcppt/strong_typedef_hash.hpp>
 #include <fcppt/strong_typedef_impl.hpp>
 #include <fcppt/strong_typedef_std_hash.hpp>
+#include <fcppt/strong_typedef_apply.hpp>
+#include <fcppt/strong_typedef_construct_cast.hpp>
+#include <fcppt/strong_typedef_input.hpp>
+#include <fcppt/strong_typedef_map.hpp>
+#include <fcppt/strong_typedef_output.hpp>
+#include <fcppt/no_init.hpp>
+#include <fcppt/cast/static_cast_fun.hpp>
 #include <fcppt/unique_ptr_impl.hpp>
 #include <fcppt/array/comparison.hpp>
 #include <fcppt/array/object_impl.hpp>
@@ -74,6 +81,7 @@
 #include <cstdint>
 #include <functional>
 #include <limits>
+#include <sstream>
 #include <optional>
 #include <string>
 #include <type_traits>
@@ -98,6 +106,10 @@ struct st_inst
 {
   using st = fcppt::strong_typedef<T, st_tag>;
   static constexpr bool sgn = std::is_signed_v<T>;
+  // narrower than int: the operands of the built-in operators are promoted to int.  The binary / unary operators
+  // of strong_typedef brace-initialise the result from an int there (a narrowing conversion, ill-formed), so only
+  // the assigning operators, ++/--, the comparisons, the hash and type_iso are observed for these types.
+  static constexpr bool narrow = sizeof(T) < sizeof(int);
   static constexpr T tmin = std::numeric_limits<T>::min();
   static constexpr T tmax = std::numeric_limits<T>::max();
 
@@ -106,8 +118,9 @@ struct st_inst
   // wrapped result next to the plain operator on the plain values: "!" marks a difference
   static std::string both(T wrapped, T plain) { return num(wrapped) + (wrapped == plain ? "" : "!"); }
 
-  template <typename F>
-  static std::string step(T a, bool ub, F f)
+  // f: the wrapped operation on x; g: the same built-in operation on a plain T
+  template <typename F, typename G>
+  static std::string step(T a, bool ub, F f, G g)
   {
     if (ub)
       return "ub";
@@ -116,44 +129,76 @@ struct st_inst
     std::string s = num(x.get()) + "/" + num(r.second);
     if (r.first != nullptr && r.first != &x)
       s += "!ref";
+    T p{a};
+    T const pr = g(p);
+    if (p != x.get() || pr != r.second)
+      s += "!plain";
     return s;
   }
+
+  struct ovf
+  {
+    bool add, sub, mul, neg, inc, dec;
+  };
+
+  static ovf overflow(T a, T b)
+  {
+    if constexpr (narrow)
+    {
+      // computed in int: only the product of two values can leave the range of int (unsigned short)
+      long long const p = static_cast<long long>(a) * static_cast<long long>(b);
+      return ovf{false, false, p > std::numeric_limits<int>::max() || p < std::numeric_limits<int>::min(), false, false,
+                 false};
+    }
+    else
+    {
+      T tmp{};
+      return ovf{sgn && __builtin_add_overflow(a, b, &tmp), sgn && __builtin_sub_overflow(a, b, &tmp),
+                 sgn && __builtin_mul_overflow(a, b, &tmp), sgn && a == tmin, sgn && a == tmax, sgn && a == tmin};
+    }
+  }
+
+  using rp = std::pair<st const *, T>;
+  static rp by_ref(st &q) { return rp{&q, q.get()}; }
+  static rp by_val(st const &q) { return rp{nullptr, q.get()}; }
 
   static std::string line(T a, T b)
   {
     st const l{a};
     st const r{b};
-    T tmp{};
-    bool const oa = sgn && __builtin_add_overflow(a, b, &tmp);
-    bool const os = sgn && __builtin_sub_overflow(a, b, &tmp);
-    bool const om = sgn && __builtin_mul_overflow(a, b, &tmp);
-    bool const on = sgn && a == tmin;
-    bool const oi = sgn && a == tmax;
-    bool const od = sgn && a == tmin;
+    ovf const o{overflow(a, b)};
     std::string s;
-    s += "add=" + (oa ? std::string{"ub"} : both((l + r).get(), static_cast<T>(a + b)));
-    s += " sub=" + (os ? std::string{"ub"} : both((l - r).get(), static_cast<T>(a - b)));
-    s += " mul=" + (om ? std::string{"ub"} : both((l * r).get(), static_cast<T>(a * b)));
-    s += " neg=" + (on ? std::string{"ub"} : both((-l).get(), static_cast<T>(-a)));
-    s += " and=" + both((l & r).get(), static_cast<T>(a & b));
-    s += " or=" + both((l | r).get(), static_cast<T>(a | b));
-    s += " xor=" + both((l ^ r).get(), static_cast<T>(a ^ b));
-    s += " not=" + both((~l).get(), static_cast<T>(~a));
-    s += " preinc=" + step(a, oi, [](st &x) { st &q = ++x; return std::make_pair(static_cast<st const *>(&q), q.get()); });
-    s += " predec=" + step(a, od, [](st &x) { st &q = --x; return std::make_pair(static_cast<st const *>(&q), q.get()); });
-    s += " postinc=" + step(a, oi, [](st &x) { st const q = x++; return std::make_pair(static_cast<st const *>(nullptr), q.get()); });
-    s += " postdec=" + step(a, od, [](st &x) { st const q = x--; return std::make_pair(static_cast<st const *>(nullptr), q.get()); });
-    s += " addas=" + step(a, oa, [&r](st &x) { st &q = (x += r); return std::make_pair(static_cast<st const *>(&q), q.get()); });
-    s += " subas=" + step(a, os, [&r](st &x) { st &q = (x -= r); return std::make_pair(static_cast<st const *>(&q), q.get()); });
-    s += " mulas=" + step(a, om, [&r](st &x) { st &q = (x *= r); return std::make_pair(static_cast<st const *>(&q), q.get()); });
-    s += " andas=" + step(a, false, [&r](st &x) { st &q = (x &= r); return std::make_pair(static_cast<st const *>(&q), q.get()); });
-    s += " oras=" + step(a, false, [&r](st &x) { st &q = (x |= r); return std::make_pair(static_cast<st const *>(&q), q.get()); });
-    s += " xoras=" + step(a, false, [&r](st &x) { st &q = (x ^= r); return std::make_pair(static_cast<st const *>(&q), q.get()); });
+    if constexpr (narrow)
+      s += "narrow";
+    else
+    {
+      s += "add=" + (o.add ? std::string{"ub"} : both((l + r).get(), static_cast<T>(a + b)));
+      s += " sub=" + (o.sub ? std::string{"ub"} : both((l - r).get(), static_cast<T>(a - b)));
+      s += " mul=" + (o.mul ? std::string{"ub"} : both((l * r).get(), static_cast<T>(a * b)));
+      s += " neg=" + (o.neg ? std::string{"ub"} : both((-l).get(), static_cast<T>(-a)));
+      s += " and=" + both((l & r).get(), static_cast<T>(a & b));
+      s += " or=" + both((l | r).get(), static_cast<T>(a | b));
+      s += " xor=" + both((l ^ r).get(), static_cast<T>(a ^ b));
+      s += " not=" + both((~l).get(), static_cast<T>(~a));
+    }
+    s += " preinc=" + step(a, o.inc, [](st &x) { return by_ref(++x); }, [](T &p) { return ++p; });
+    s += " predec=" + step(a, o.dec, [](st &x) { return by_ref(--x); }, [](T &p) { return --p; });
+    s += " postinc=" + step(a, o.inc, [](st &x) { return by_val(x++); }, [](T &p) { return p++; });
+    s += " postdec=" + step(a, o.dec, [](st &x) { return by_val(x--); }, [](T &p) { return p--; });
+    s += " addas=" + step(a, o.add, [&r](st &x) { return by_ref(x += r); }, [b](T &p) { return p += b; });
+    s += " subas=" + step(a, o.sub, [&r](st &x) { return by_ref(x -= r); }, [b](T &p) { return p -= b; });
+    s += " mulas=" + step(a, o.mul, [&r](st &x) { return by_ref(x *= r); }, [b](T &p) { return p *= b; });
+    s += " andas=" + step(a, false, [&r](st &x) { return by_ref(x &= r); }, [b](T &p) { return p &= b; });
+    s += " oras=" + step(a, false, [&r](st &x) { return by_ref(x |= r); }, [b](T &p) { return p |= b; });
+    s += " xoras=" + step(a, false, [&r](st &x) { return by_ref(x ^= r); }, [b](T &p) { return p ^= b; });
     if (r.get() != b || l.get() != a)
       s += " operand-changed";
     bool const e = l == r;
     s += " lt=" + b01(l < r) + " le=" + b01(l <= r) + " gt=" + b01(l > r) + " ge=" + b01(l >= r) + " eq=" + b01(e) +
          " ne=" + b01(l != r);
+    if ((l < r) != (a < b) || (l <= r) != (a <= b) || (l > r) != (a > b) || (l >= r) != (a >= b) || e != (a == b) ||
+        (l != r) != (a != b))
+      s += "!plain";
     std::string heq = "-";
     if (e)
     {
@@ -169,10 +214,129 @@ struct st_inst
     return s;
   }
 
-  static bool in_range(long long lo, long long hi, std::string const &s, T &out)
+  // the SAME object on both sides of every binary / assigning operator
+  static std::string self_line(T a)
   {
-    (void)lo;
-    (void)hi;
+    ovf const o{overflow(a, a)};
+    std::string s;
+    if constexpr (narrow)
+      s += "narrow";
+    else
+    {
+      st const x{a};
+      s += "add=" + (o.add ? std::string{"ub"} : both((x + x).get(), static_cast<T>(a + a)));
+      s += " sub=" + (o.sub ? std::string{"ub"} : both((x - x).get(), static_cast<T>(a - a)));
+      s += " mul=" + (o.mul ? std::string{"ub"} : both((x * x).get(), static_cast<T>(a * a)));
+      s += " and=" + both((x & x).get(), static_cast<T>(a & a));
+      s += " or=" + both((x | x).get(), static_cast<T>(a | a));
+      s += " xor=" + both((x ^ x).get(), static_cast<T>(a ^ a));
+      if (x.get() != a)
+        s += " operand-changed";
+    }
+    s += " addas=" + step(a, o.add, [](st &x) { return by_ref(x += x); }, [](T &p) { return p += p; });
+    s += " subas=" + step(a, o.sub, [](st &x) { return by_ref(x -= x); }, [](T &p) { return p -= p; });
+    s += " mulas=" + step(a, o.mul, [](st &x) { return by_ref(x *= x); }, [](T &p) { return p *= p; });
+    s += " andas=" + step(a, false, [](st &x) { return by_ref(x &= x); }, [](T &p) { return p &= p; });
+    s += " oras=" + step(a, false, [](st &x) { return by_ref(x |= x); }, [](T &p) { return p |= p; });
+    s += " xoras=" + step(a, false, [](st &x) { return by_ref(x ^= x); }, [](T &p) { return p ^= p; });
+    s += " asg=" + step(a, false, [](st &x) { st &y = x; return by_ref(x = y); }, [](T &p) { return p; });
+    s += " mvasg=" + step(a, false, [](st &x) { st &y = x; return by_ref(x = std::move(y)); }, [](T &p) { return p; });
+    st const c{a};
+    bool const e = c == c;
+    s += " lt=" + b01(c < c) + " le=" + b01(c <= c) + " gt=" + b01(c > c) + " ge=" + b01(c >= c) + " eq=" + b01(e) +
+         " ne=" + b01(c != c);
+    s += " heq=" + (e ? b01(fcppt::strong_typedef_hash<st>{}(c) == std::hash<st>{}(c)) : std::string{"-"});
+    return s;
+  }
+
+  // members and helper functions of the class itself
+  static std::string mem_line(T a, T b)
+  {
+    std::string s;
+    {
+      st x{a};
+      T &g = x.get();
+      g = b; // writing through get() changes the wrapped object
+      st const &cx = x;
+      s += "set=" + num(cx.get()) + (&g == &x.get() && &cx.get() == &g ? "" : "!addr");
+    }
+    {
+      st const c{a};
+      s += " cget=" + num(c.get());
+    }
+    {
+      st n{fcppt::no_init{}};
+      n.get() = a;
+      s += " noinit=" + num(n.get());
+      st m{fcppt::no_init{}};
+      m = st{b};
+      s += "/" + num(m.get());
+    }
+    {
+      st x{a};
+      st c{x};
+      x.get() = b;
+      s += " copy=" + num(c.get()) + "/" + num(x.get());
+    }
+    {
+      st x{a};
+      st c{b};
+      st &q = (c = x);
+      x.get() = b;
+      s += " cpas=" + num(c.get()) + "/" + num(x.get()) + (&q == &c ? "" : "!ref");
+    }
+    {
+      st x{a};
+      st c{std::move(x)};
+      st d{b};
+      d = std::move(c);
+      s += " mv=" + num(d.get());
+    }
+    s += " size=" + b01(sizeof(st) == sizeof(T) && alignof(st) == alignof(T));
+    {
+      st const x{a};
+      st const y{b};
+      auto const f1 = [b](T v) { return static_cast<T>(v ^ b); };
+      auto const m1 = fcppt::strong_typedef_map(x, f1);
+      auto const m2 = fcppt::strong_typedef_map(st{a}, f1);
+      static_assert(std::is_same_v<std::remove_cv_t<decltype(m1)>, st>);
+      s += " map=" + both(m1.get(), static_cast<T>(a ^ b)) + "/" + both(m2.get(), static_cast<T>(a ^ b));
+      auto const f2 = [](T u, T v) { return static_cast<T>(u & static_cast<T>(~v)); };
+      auto const a2 = fcppt::strong_typedef_apply(f2, x, y);
+      auto const a3 = fcppt::strong_typedef_apply(f2, st{a}, y);
+      static_assert(std::is_same_v<std::remove_cv_t<decltype(a2)>, st>);
+      s += " apply=" + both(a2.get(), static_cast<T>(a & static_cast<T>(~b))) + "/" + both(a3.get(), a2.get());
+      auto const a1 = fcppt::strong_typedef_apply([](T u) { return static_cast<T>(~u); }, x);
+      s += " apply1=" + both(a1.get(), static_cast<T>(~a));
+      // the same object as both arguments
+      auto const as = fcppt::strong_typedef_apply(f2, x, x);
+      s += " applyself=" + both(as.get(), static_cast<T>(a & static_cast<T>(~a)));
+      if (x.get() != a || y.get() != b)
+        s += " operand-changed";
+    }
+    {
+      using wide = std::conditional_t<sgn, long long, unsigned long long>;
+      st const c{fcppt::strong_typedef_construct_cast<st, fcppt::cast::static_cast_fun>(static_cast<wide>(b))};
+      s += " ccast=" + num(c.get());
+    }
+    {
+      // << and >> are those of the wrapped type (a character for the 8-bit types)
+      std::ostringstream o1, o2;
+      o1 << st{a};
+      o2 << a;
+      std::istringstream i1{o2.str() + " " + std::to_string(b)}, i2{o2.str() + " " + std::to_string(b)};
+      st x{fcppt::no_init{}};
+      x.get() = T{};
+      T p{};
+      i1 >> x;
+      i2 >> p;
+      s += " out=" + b01(o1.str() == o2.str()) + " in=" + b01(x.get() == p && i1.good() == i2.good() && i1.tellg() == i2.tellg());
+    }
+    return s;
+  }
+
+  static bool in_range(std::string const &s, T &out)
+  {
     try
     {
       if constexpr (sgn)
@@ -199,28 +363,49 @@ struct st_inst
     }
   }
 
+  template <typename F>
+  static std::string digest(T lo, T hi, F f)
+  {
+    std::uint64_t h = vh::fnv_init;
+    for (T b = lo;; ++b)
+    {
+      h = vh::fnv(h, f(b));
+      if (b == hi)
+        break;
+    }
+    return "D " + vh::hex64(h);
+  }
+
   static std::string handle(std::vector<std::string> const &t)
   {
-    if (t[0] == "st" && t.size() == 4)
+    if ((t[0] == "st" || t[0] == "stmem") && t.size() == 4)
     {
       T a{}, b{};
-      if (!in_range(0, 0, t[2], a) || !in_range(0, 0, t[3], b))
+      if (!in_range(t[2], a) || !in_range(t[3], b))
         return "bad-op";
-      return line(a, b);
+      return t[0] == "st" ? line(a, b) : mem_line(a, b);
     }
-    if (t[0] == "sts" && t.size() == 5)
+    if (t[0] == "stself" && t.size() == 3)
+    {
+      T a{};
+      if (!in_range(t[2], a))
+        return "bad-op";
+      return self_line(a);
+    }
+    if ((t[0] == "sts" || t[0] == "stmems") && t.size() == 5)
     {
       T a{}, lo{}, hi{};
-      if (!in_range(0, 0, t[2], a) || !in_range(0, 0, t[3], lo) || !in_range(0, 0, t[4], hi) || lo > hi)
+      if (!in_range(t[2], a) || !in_range(t[3], lo) || !in_range(t[4], hi) || lo > hi)
         return "bad-op";
-      std::uint64_t h = vh::fnv_init;
-      for (T b = lo;; ++b)
-      {
-        h = vh::fnv(h, line(a, b));
-        if (b == hi)
-          break;
-      }
-      return "D " + vh::hex64(h);
+      bool const mem = t[0] == "stmems";
+      return digest(lo, hi, [a, mem](T b) { return mem ? mem_line(a, b) : line(a, b); });
+    }
+    if (t[0] == "stselfs" && t.size() == 4)
+    {
+      T lo{}, hi{};
+      if (!in_range(t[2], lo) || !in_range(t[3], hi) || lo > hi)
+        return "bad-op";
+      return digest(lo, hi, [](T a) { return self_line(a); });
     }
     return "bad-op";
   }
@@ -878,9 +1063,9 @@ std::string handle(std::vector<std::string> const &t)
     return "bad-op";
   try
   {
-    if (t[0] == "st" || t[0] == "sts")
+    if (t[0] == "st" || t[0] == "sts" || t[0] == "stself" || t[0] == "stselfs" || t[0] == "stmem" || t[0] == "stmems")
     {
-      if (t.size() < 4)
+      if (t.size() < 3)
         return "bad-op";
       if (t[1] == "i32")
         return st_inst<int>::handle(t);
@@ -890,6 +1075,14 @@ std::string handle(std::vector<std::string> const &t)
         return st_inst<long>::handle(t);
       if (t[1] == "u64")
         return st_inst<unsigned long>::handle(t);
+      if (t[1] == "i8")
+        return st_inst<signed char>::handle(t);
+      if (t[1] == "u8")
+        return st_inst<unsigned char>::handle(t);
+      if (t[1] == "i16")
+        return st_inst<short>::handle(t);
+      if (t[1] == "u16")
+        return st_inst<unsigned short>::handle(t);
       return "bad-op";
     }
     if (t[0] == "wrap" && t.size() == 2)
